@@ -66,6 +66,7 @@ FUNCS = [  # (lean name, file, class, method, translator key, lean type)
     ("factory", "statemachine/factory.py", None, "factory", "factory", "F.FactoryScript"),
     ("specs", "statemachine/callbacks.py", None, "specs", "specs", "P.SpecScript"),
     ("surface", "statemachine/state.py", None, "surface", "surface", "U.SurfaceScript"),
+    ("takeCallback", "statemachine/dispatcher.py", None, "take", "take", "T.TakeScript"),
 ]
 ASYNC_DEF = {"activateAsync", "triggerAsync", "processAsync", "wrapperDunder", "execAsyncCall", "execAsyncAll"}
 
@@ -2144,6 +2145,52 @@ def tr_surface(repo):
             + ", isActive := " + act + ", eventGet := " + eg + " }")
 
 
+# ----------------------------------------------------------------------------------------- dispatcher: expressions
+
+def tr_take(repo):
+    M = lambda name: method(repo, "statemachine/dispatcher.py", "Listeners", name)
+
+    def whole(fn, pats, what):
+        t = "\n".join(ntext(x) for x in _body(_plain(fn)))
+        for pat, val in pats:
+            if re.match(pat, t, flags=re.S):
+                return val
+        raise Untranslatable(f"{what}: body not recognised: {t!r}")
+    take = whole(M("_take_callback"), [(
+        r"^callbacks = \[\]\nfor \(?key, builder\)? in self\.search_name\(name\):\n    callback = builder\(\)\n"
+        r"    callback\.unique_key = key\n    callbacks\.append\(callback\)\n"
+        r"if len\(callbacks\) == 0:\n    names_not_found_handler\(name\)\n    return allways_true\n"
+        r"elif len\(callbacks\) == 1:\n    return callbacks\[0\]\nelse:\n    return reduce\(custom_and, callbacks\)$",
+        "[.collectPerProvider, .noneReportAndAlwaysTrue, .oneItself, .severalReduceAnd]")], "_take_callback")
+    build = whole(M("build"), [(
+        r"^if not spec\.may_contain_boolean_expression:\n    yield from self\.search\(spec\)\n    return\n"
+        r"names_not_found = set\(\)\n"
+        r"take_callback_partial = partial\(self\._take_callback, names_not_found_handler=names_not_found\.add\)\n"
+        r"try:\n    expression = parse_boolean_expr\(spec\.func, take_callback_partial, operator_mapping\)\n"
+        r"except SyntaxError as err:\n    raise InvalidDefinition\(.*?\) from err\n"
+        r"if not expression or names_not_found:\n    spec\.names_not_found = names_not_found\n    return\n"
+        r"yield \(expression\.unique_key, lambda: expression\)$",
+        "[.plainSpecsSearch, .prepareNotFound, .parseOrInvalidDefinition, .registerNothingIfNamesMissing, .yieldExpression]")],
+        "Listeners.build")
+    s1 = whole(M("search"), [(
+        r"^if spec\.reference is SpecReference\.NAME:\n    yield from self\.search_name\(spec\.attr_name\)\n"
+        r"elif spec\.reference is SpecReference\.CALLABLE:\n    yield from self\._search_callable\(spec\)\n"
+        r"elif spec\.reference is SpecReference\.PROPERTY:\n    yield from self\._search_property\(spec\)\n"
+        r"else:\n    raise ValueError\(.*\)$", ".dispatchOnReference")], "Listeners.search")
+    s2 = whole(M("_search_callable"), [(
+        r"^if not spec\.is_bounded:\n    for listener in self\.items:\n        func = getattr\(listener\.obj, spec\.attr_name, None\)\n"
+        r"        if getattr\(func, '__func__', None\) is spec\.func:\n"
+        r"            yield \(listener\.build_key\(spec\.attr_name\), partial\(callable_method, func\)\)\n            return\n"
+        r"yield \(f'\{spec\.attr_name\}@\{id\(spec\.func\)\}', partial\(callable_method, spec\.func\)\)$",
+        ".boundMethodOfFirstProviderElseFunction")], "_search_callable")
+    s3 = whole(M("_search_property"), [(
+        r"^attr_name = spec\.attr_name\nif attr_name not in self\.all_attrs:\n    return\nfor listener in self\.items:\n"
+        r"    func = getattr\(type\(listener\.obj\), attr_name, None\)\n    if func is not None and func is spec\.func:\n"
+        r"        yield \(listener\.build_key\(attr_name\), partial\(attr_method, attr_name, listener\.obj\)\)\n        return$",
+        ".firstProviderWhoseClassHasThatProperty")], "_search_property")
+    return "{\n  take := " + take + ",\n  build := " + build + ",\n  search := [" + ", ".join([s1, s2, s3]) + "] }"
+
+
 TRANSLATORS = {"eventcall": tr_eventcall, "send": tr_send, "start": tr_start, "injected": tr_injected,
                "activate": tr_activate, "trigger": tr_trigger, "process": tr_process, "wrapper": tr_wrapper,
                "executor": tr_executor, "bind": tr_bind,
@@ -2184,6 +2231,8 @@ def _translate_one(repo, name, rel, cls, meth, key, ty):
             return (ty, tr_spec(repo), None)
         if key == "surface":
             return (ty, tr_surface(repo), None)
+        if key == "take":
+            return (ty, tr_take(repo), None)
         if key == "injected":
             if [ast.unparse(d) for d in fn.decorator_list] != ["property"]:
                 raise Untranslatable("extended_kwargs is not a property")
@@ -2357,6 +2406,10 @@ SELFTEST_EDITS = [
     ("statemachine/state.py", "        return isinstance(other, State) and self.name == other.name and self.id == other.id", "        return (isinstance(other, State) and self.name == other.name and self.id == other.id) or other == self.value"),
     ("statemachine/state.py", "        return self._machine().current_state == self", "        return self._machine().current_state_value == self.value"),
     ("statemachine/event.py", "        return BoundEvent(id=self.id, name=self.name, _sm=instance)", "        return instance.__dict__.setdefault(\"_ev_\" + self.id, BoundEvent(id=self.id, name=self.name, _sm=instance))"),
+    ("statemachine/dispatcher.py", "            return reduce(custom_and, callbacks)", "            return callbacks[-1]"),
+    ("statemachine/dispatcher.py", "        if not expression or names_not_found:", "        if not expression:"),
+    ("statemachine/dispatcher.py", "                if getattr(func, \"__func__\", None) is spec.func:", "                if getattr(type(listener.obj), spec.attr_name, None) is spec.func:"),
+    ("statemachine/dispatcher.py", "            names_not_found_handler(name)\n", ""),
 ]
 
 
@@ -2470,6 +2523,7 @@ import SMV.Src.IREng
 import SMV.Src.IRFactory
 import SMV.Src.IRSpec
 import SMV.Src.IRSurface
+import SMV.Src.IRTake
 /-! GENERATED by `harness/srcgen.py --write-expected` from the tree the theorems of `SMV/Src/Tie.lean` were
 proved for. Do not edit by hand. -/
 """
